@@ -385,6 +385,31 @@ func ruleKeyedStores(r *Run) {
 	}
 	for _, s := range sites {
 		fn := resolveFn(p, s.rel, s.recv, s.fn)
+		if fn == nil && s.fn == "samplesSet" {
+			// whatever builds the set of grouping keys for the set operators
+			if mo := p.Func(metricPkg, "buildMergeSamplesOp"); mo != nil {
+				seen := map[*ssa.Function]bool{}
+				var builders []*ssa.Function
+				allInstrs(mo, func(in ssa.Instruction) {
+					for _, op := range in.Operands(nil) {
+						if op == nil || *op == nil {
+							continue
+						}
+						if f := funcOfValue(*op); f != nil {
+							for _, sb := range setBuildLoops(funcGroup(f)) {
+								if !seen[sb.Fn] {
+									seen[sb.Fn] = true
+									builders = append(builders, sb.Fn)
+								}
+							}
+						}
+					}
+				})
+				if len(builders) == 1 {
+					fn = builders[0]
+				}
+			}
+		}
 		name := shortRel(s.rel) + "." + s.fn
 		if s.recv != "" {
 			name = shortRel(s.rel) + ".(" + s.recv + ")." + s.fn
@@ -399,6 +424,22 @@ func ruleKeyedStores(r *Run) {
 		group := funcGroup(fn)
 		keyOK := func(k ssa.Value, at ssa.Instruction) (ssa.Value, bool) {
 			kc, ok := k.(*ssa.Call)
+			// a small helper that returns X.Key() stands for it
+			for d := 0; ok && d < 3 && !invokeIs(kc, "Key"); d++ {
+				callee := staticCallee(kc)
+				if callee == nil || callee.Blocks == nil || len(callee.Blocks) > 4 || pkgOfFunc(callee) != pkgOfFunc(fn) {
+					break
+				}
+				rets := returnsOf(callee)
+				if len(rets) != 1 || len(rets[0].Results) != 1 {
+					break
+				}
+				inner, isCall := rets[0].Results[0].(*ssa.Call)
+				if !isCall {
+					break
+				}
+				kc = inner
+			}
 			if !ok || !invokeIs(kc, "Key") {
 				bad = true
 				o.Fail(r.pos(at.Pos()), "the map key is %s, not X.Key()", describe(k, 0))
